@@ -135,6 +135,7 @@ def run(chk: Check) -> None:
     ix = get_index()
     run_instance_wide(chk, ix)
     run_memo_keys(chk, ix)
+    run_error_kinds(chk, ix)
     base = ix.cls(OP)
     ops = [c for c in base.all_subclasses() if c.module.name == "mypyc.ir.ops" and "sources" in c.methods and not any(isinstance(n, ast.Raise) for n in c.methods["sources"].node.body)]
     if len(ops) < 35:
@@ -378,3 +379,27 @@ def run_memo_keys(chk: Check, ix) -> None:
                 r5.violation(k, f.loc(st), (f"the cached value is built from {sorted(built_from)} but the key holds {sorted(whole)} whole" + (f" (and `{[norm(e) for e in elts if not isinstance(e, ast.Name)]}` only in part)" if len(whole) < len(elts) else "") if missing else f"lookup key {sorted(lk)} differs from the store key") + ": two call sites that differ only in the dropped part share one cached block (e.g. a plain dec_ref reused where the register may still be NULL)")
     if n < 1:
         raise AnalysisError("no memoised construction found in mypyc/transform (expected refcount.add_block)")
+
+
+def run_error_kinds(chk: Check, ix) -> None:
+    """R06.6: the exception transform has an arm for every error kind an op can declare."""
+    r6 = chk.rule("R06.6", "split_blocks_at_errors handles every ERR_* error kind defined in mypyc/ir/ops.py other than ERR_NEVER (an op whose kind has no arm gets no error branch: the error value is used as a result, or the transform asserts), and enters the case analysis for every RegisterOp whose kind is not ERR_NEVER", floor=4)
+    ops = ix.module("mypyc.ir.ops")
+    kinds = sorted(k for k in ops.assigns if k.startswith("ERR_") and isinstance(ops.assigns[k], ast.Constant) and isinstance(ops.assigns[k].value, int))
+    if len(kinds) < 4:
+        raise AnalysisError(f"only {len(kinds)} ERR_* constants found in mypyc/ir/ops.py")
+    f = ix.func("mypyc.transform.exceptions.split_blocks_at_errors")
+    tests = [norm(c) for c in ast.walk(f.node) if isinstance(c, ast.Compare)]
+    entry = any(t in ("op.error_kind != ERR_NEVER",) for t in tests)
+    for k in kinds:
+        if k == "ERR_NEVER":
+            continue
+        key = f"split_blocks_at_errors has an arm for {k}"
+        if f"op.error_kind == {k}" in tests or f"op.error_kind in ({k}," in " ".join(tests):
+            r6.ok(key, f.loc())
+        else:
+            r6.violation(key, f.loc(), f"an op declaring error_kind={k} gets no error check after it: its error value flows on as an ordinary result (or the transform hits `assert False`)")
+    if entry:
+        r6.ok("the case analysis is entered for every RegisterOp with error_kind != ERR_NEVER", f.loc())
+    else:
+        r6.violation("the case analysis is entered for every RegisterOp with error_kind != ERR_NEVER", f.loc(), "ops that can raise are filtered by something other than `error_kind != ERR_NEVER`")
